@@ -46,7 +46,21 @@ func txWorlds() []WorldRun { return []WorldRun{wrPay, wrCoin, wrPool, wrBook, wr
 func init() {
 	regExplore("C01", txWorlds(), one(monitors.Conservation{}))
 	regExplore("C02", txWorlds(), one(monitors.NonNegative{}))
-	regExplore("C03", txWorlds(), one(monitors.FailedTxOnlyFee{}))
+	// C03: the twin monitor plus the inert-rejection probe (checks/c03_inert.go)
+	MonitorsFor["C03"] = one(monitors.FailedTxOnlyFee{})
+	Register(&Check{ID: "C03", Level: "model_checking", Run: func(c *Ctx) {
+		var probes int64
+		runs := txWorlds()
+		for i := range runs {
+			runs[i].OnTransition = c03InertProbe(c, &probes)
+		}
+		RunExplore(c, runs, one(monitors.FailedTxOnlyFee{}), baseAssumptions...)
+		c.Ev.Coverage["inert_rejection_probe_pairs"] = probes
+		c.Ev.Coverage["inert_rejection_rule"] = "for every rejected transaction t whose block twin shows no difference at all (quick: only when t is the first transaction on the genesis state) and every menu transaction p, the blocks [..,t,p] and [..,p] must give p the same response and leave the same state"
+		if old, ok := c.Ev.Coverage["traces_validated_against_impl"].(int64); ok {
+			c.Ev.Coverage["traces_validated_against_impl"] = old + 2*probes
+		}
+	}})
 	// C05 keeps the history-dependent items of the pay world (replays, forged bodies carrying an earlier signature)
 	regExplore("C05", append([]WorldRun{wrPayReplay}, txWorlds()[1:]...), one(monitors.Authorization{}))
 	regExplore("C22", []WorldRun{wrCoin, wrPool}, one(monitors.Registry{}))
